@@ -52,7 +52,10 @@ def run(ctx):
     from contracts import wrapf_splicer
     mons = dict(MONITORS)
     mons.update(dict((u.name, ("m_splicer_e2e", gs_inputs, lambda nm: None, 40)) for u in wrapf_splicer.UNITS))
-    ctx.pyvc([create_splicer, get_splicers, write_continue_plain, user_line_identity_carved, user_line_identity] + wrapf_splicer.UNITS, mons)
+    from contracts import wrapc_declsplicer
+    mons[wrapc_declsplicer.decl_splicer.name] = ("m_splicer_e2e", lambda v: None, lambda nm: None, 40)
+    ctx.pyvc([create_splicer, get_splicers, write_continue_plain, user_line_identity_carved, user_line_identity] + wrapf_splicer.UNITS
+             + wrapc_declsplicer.UNITS, mons)
     yaml_splicer_files(ctx)
     # bounded stand-ins (never counted as proved): reader on whole-block orders; end-to-end round trip of every block
     rc = ctx.monitor("m_corpus_rel", "psearch", 400, ctx.seed, 16, json.dumps({"rel": ["feedback"]}))
